@@ -111,3 +111,16 @@ package miner
 //@   at-call verifyAttachedTickets assert[this-blocks-hash-round-and-tickets] $arg2 == b.Hash && $arg3 == b.Round && $arg4 == attached
 //@   at-call MergeVerificationTickets assert[attached-tickets-verified] $arg1 == b && (forall i in 0..len(attached) :: tk_valid(attached[i].VerifierID, attached[i].Signature, b.Hash, b.Round))
 //@   at-call MergeVerificationTickets assert[attached-tickets-from-distinct-verifiers] forall i in 0..len(attached) :: (forall j in i+1..len(attached) :: attached[i].VerifierID != attached[j].VerifierID)
+
+// A notarization message: the tickets it carries are merged into the block only as the list
+// Block.UnknownTickets made of them (each verifier once), and - inside MergeNotarization - only after
+// VerifyTickets accepted every one of them for this block's hash and the round of the message.
+//@ func (*Chain).notarizationProcess
+//@   prop C31
+//@   requires mc != nil && not != nil
+//@   opaque getOrCreateRound, GetBlock, GetNotarizedBlockForce, GetPreviousBlock, SetPreviousBlock, ComputeOrSyncState, VerifyBlockNotarization, AddNotarizedBlockToRound, ProgressOnNotarization, IsBlockNotarized, IsStateComputed, MergeNotarization, GetVerificationTickets
+//@   at-call MergeNotarization assert[each-verifier-once] $arg3 == b && distinctVerifiers($arg4)
+//@ func (*Chain).MergeNotarization$1
+//@   prop C31
+//@   opaque checkBlockNotarization, IsBlockNotarized, MergeVerificationTickets
+//@   at-call MergeVerificationTickets assert[merged-only-after-verification] $arg1 == b && $arg2 == vts && (forall i in 0..len(vts) :: tk_valid(vts[i].VerifierID, vts[i].Signature, b.Hash, r.Number))
